@@ -69,6 +69,8 @@ pub struct RunOut {
     pub budget: u64,
     /// owner operations of one ring that overlapped (st3 allows one owner at a time)
     pub owner_overlaps: i64,
+    /// the first pair of overlapping owner operations (e.g. ("push", "spare_capacity"))
+    pub overlap_pair: Option<(String, String)>,
     pub foreign_pushes: u64,
     pub lock_contended: u64,
 }
@@ -151,6 +153,7 @@ struct SharedState {
     counters: Mutex<Counters>,
     shared_pushes_direct: AtomicUsize,
     foreign_pushes: AtomicUsize,
+    overlap_pair: Mutex<Option<(String, String)>>,
 }
 
 fn do_op(
@@ -252,6 +255,7 @@ pub fn run_case(c: &Case, budget: u64, forced: Option<Vec<u8>>) -> RunOut {
         counters: Mutex::default(),
         shared_pushes_direct: AtomicUsize::new(0),
         foreign_pushes: AtomicUsize::new(0),
+        overlap_pair: Mutex::new(None),
     };
     let live = AtomicI64::new(0);
     let mut out = RunOut { budget, ..Default::default() };
@@ -309,6 +313,9 @@ pub fn run_case(c: &Case, budget: u64, forced: Option<Vec<u8>>) -> RunOut {
                     g.injector_retries += cs.injector_retries;
                     g.ring_push_full += cs.ring_push_full;
                     g.lock_contended += cs.lock_contended;
+                    if let Some((a, b)) = st3::fifo::take_overlap_pair() {
+                        st.overlap_pair.lock().unwrap().get_or_insert((a.to_string(), b.to_string()));
+                    }
                     crossbeam_deque::set_group(None);
                     st3::fifo::set_group(None);
                     st3::fifo::set_overlap_counter(None);
@@ -321,6 +328,7 @@ pub fn run_case(c: &Case, budget: u64, forced: Option<Vec<u8>>) -> RunOut {
 
     out.counters = st.counters.lock().unwrap().clone();
     out.owner_overlaps = overlaps.load(Ordering::SeqCst);
+    out.overlap_pair = st.overlap_pair.lock().unwrap().clone();
     out.foreign_pushes = st.foreign_pushes.load(Ordering::SeqCst) as u64;
     out.lock_contended = out.counters.lock_contended;
     out.pushed = st.pushed.lock().unwrap().clone();
